@@ -9,6 +9,7 @@ import (
 	"unsafe"
 
 	psatoken "github.com/veraison/psatoken"
+	"github.com/veraison/psatoken/encoding"
 	"verif/engine/choice"
 	"verif/engine/deephash"
 	"verif/engine/evid"
@@ -221,9 +222,29 @@ func c18ClaimsPair(c *choice.Ctx, st *Stats, build func() psatoken.IClaims, labe
 }
 
 // otherActivity exercises the library on objects unrelated to the one under observation.
+// derivedSerialisations: unrelated claims-sets of derived types serialised successfully through the embedding-aware
+// helpers, directly and through the types' own codec methods (what a pooled output buffer would be handed to next).
+func derivedSerialisations() {
+	for i, a := range []*refmodel.Claims{c02Claims()[3], c02Claims()[0]} {
+		b := *a
+		b.Canon, b.Profile = ExtP2Name, sp(ExtP2Name)
+		x, err := realise(&refmodel.Claims{P: 2, Canon: refmodel.P2Name, Profile: sp(refmodel.P2Name), ClientID: b.ClientID, Lifecycle: b.Lifecycle, ImplID: b.ImplID, BootSeed: b.BootSeed, CertRef: b.CertRef, Comps: b.Comps, Nonces: b.Nonces, InstID: b.InstID, VSI: b.VSI})
+		if err != nil {
+			continue
+		}
+		extra := int64(7 + i)
+		e := &ExtP2Claims{P2Claims: *x.(*psatoken.P2Claims), Extra: &extra}
+		_, _ = e.MarshalCBOR()
+		_, _ = e.MarshalJSON()
+		_, _ = encoding.SerializeStructToCBOR(extEM, e)
+		_, _ = encoding.SerializeStructToJSON(e)
+	}
+}
+
 func otherActivity() {
 	pollute(11) // stock-factory claims changed through their pointers
 	pollute(12) // serialisations of unrelated derived structs refused midway
+	derivedSerialisations()
 	cl := c02Claims()
 	k := fixtures.Get("ES256", 2)
 	for _, a := range []*refmodel.Claims{cl[3], cl[1], cl[0]} {
@@ -253,6 +274,7 @@ func otherActivity() {
 func otherActivityLight() {
 	pollute(11) // stock-factory claims changed through their pointers
 	pollute(12) // serialisations of unrelated derived structs refused midway
+	derivedSerialisations()
 	cl := c02Claims()
 	for _, a := range []*refmodel.Claims{cl[3], cl[1]} {
 		if x, err := realise(a); err == nil {
